@@ -19,11 +19,12 @@ HcW(k, node, time) == <<"sdowr", 4118, k, <<time % 256, time \div 256, node, 0>>
 L11 == {<<"tick">>} \cup {<<"hb", nd, st>> : nd \in {10, 11, 12}, st \in {5, 127}} \cup {<<"hb", 10, 9>>}
        \cup {HcW(k, nd, t) : k \in {1, 2}, nd \in {10, 11, 12}, t \in {0, 2, 3}}
        \cup {<<"hbev", nd>> : nd \in {10, 11, 12}} \cup {<<"hblast", nd>> : nd \in {10, 11}} \cup {<<"sdord", 4118, 1>>, <<"sdord", 4118, 2>>}
+       \cup {HcW(1, 10, 32768), HcW(2, 12, 65535)}        \* the value range of the 16-bit consumer time
 L11Q == {<<"tick">>} \cup {<<"hb", nd, 5>> : nd \in {10, 11, 12}} \cup {<<"hb", 10, 127>>}
        \cup {HcW(k, nd, t) : k \in {1, 2}, nd \in {10, 11}, t \in {0, 2}} \cup {HcW(1, 12, 2)}
-       \cup {<<"hbev", nd>> : nd \in {10, 11}} \cup {<<"hblast", 10>>, <<"sdord", 4118, 2>>}
-P11 == << <<"sdord", 4118, 1>>, <<"sdord", 4118, 2>>, <<"hb", 10, 5>>, <<"hb", 11, 5>>, <<"hb", 12, 5>>, <<"tick">>, <<"tick">>, <<"tick">>, <<"tick">>, <<"tick">>, <<"tick">>,
-          <<"hbev", 10>>, <<"hbev", 11>>, <<"hbev", 12>>, <<"hblast", 10>>, <<"hblast", 11>>, <<"hblast", 12>>, <<"hb", 10, 127>>, <<"tick">>, <<"tick">>, <<"tick">> >>
+       \cup {<<"hbev", nd>> : nd \in {10, 11}} \cup {<<"hblast", 10>>, <<"sdord", 4118, 2>>} \cup {HcW(1, 10, 40000)}
+P11 == << <<"pool">>, <<"sdord", 4118, 1>>, <<"sdord", 4118, 2>>, <<"hb", 10, 5>>, <<"hb", 11, 5>>, <<"hb", 12, 5>>, <<"tick">>, <<"tick">>, <<"tick">>, <<"tick">>, <<"tick">>, <<"tick">>,
+          <<"hbev", 10>>, <<"hbev", 11>>, <<"hbev", 12>>, <<"hblast", 10>>, <<"hblast", 11>>, <<"hblast", 12>>, <<"pool">>, <<"hb", 10, 127>>, <<"tick">>, <<"tick">>, <<"tick">>, <<"pool">> >>
 \* ---- C20 (node services part): heartbeat producer + two consumers + application timers, reset in every state
 L20 == {<<"tick">>, <<"nmt", 130, 5>>, <<"nmt", 129, 0>>, <<"nmt", 1, 5>>, <<"nmt", 2, 5>>, <<"hb", 10, 5>>, <<"hb", 11, 127>>}
        \cup {<<"sdowr", 4119, 0, <<t, 0>>>> : t \in {0, 3}} \cup {HcW(2, 11, 2), HcW(1, 12, 3), HcW(2, 11, 0)} \cup {<<"apptmr", 1, 2, 2>>, <<"apptmr", 2, 3, 0>>, <<"emcyset">>}
